@@ -189,7 +189,7 @@ PROPS = {
         "level_note": "Trusted: Coq kernel, extraction, driver, harness, synctest. Partial: interleavings inside a quiescence interval are validated through their outcome; the second-address-on-repeat-ADD finding (known finding) is a Manager-level behaviour outside the per-interface theorem.",
     },
     "C06": {
-        "pkg": "./pool/", "test": "TestVerif_Pool", "n_quick": 400, "n_thorough": 20000, "env": {"VERIF_PROP": "C06"},
+        "pkg": "./pool/", "test": "TestVerif_Pool", "n_quick": 400, "n_thorough": 16000, "env": {"VERIF_PROP": "C06"},
         "rule": "as C01 with a fault-free cloud, frequent balancer passes, pools near cap, min>max and max=0 configurations; every cloud call is judged at call time against the observer's ledger "
                 "(addresses the cloud has on the interface + asked <= cap; interfaces <= slots; no unassign of a held or primary address; no delete of an interface with a held address, a waiting request, or of trunk/erdma type; "
                 "Dispose marks only addresses nobody holds). non-trivial = at least one unassign or delete call was made; distinct = distinct input vectors",
@@ -729,7 +729,13 @@ def sig_C01(ins, outs, extra=""):
             if att:
                 slot = att[1]
                 pos = recs.index(att)
-                had_eni = any((r[0] == 12 and r[1] == slot and r[2] in (0, 1) and r[6] != 0) for r in recs[:pos])
+                # does the slot hold an interface at the time of the attempt? (created earlier and not deleted since)
+                had_eni = False
+                for r in recs[:pos]:
+                    if r[0] == 12 and r[1] == slot and r[2] in (0, 1) and len(r) > 6 and r[6] != 0:
+                        had_eni = True
+                    if r[0] == 12 and r[1] == slot and r[2] == 6 and len(r) > 4 and r[4] == 1:
+                        had_eni = False
                 if not had_eni and att[5] != 0:
                     return "C01:repeat-add:second-address:pinned-request-served-by-interface-less-slot"
             return "C01:repeat-add:second-address"
